@@ -146,3 +146,17 @@ Example isolation_needs_immutable_globals :
   = [ORan ["one"]; OReject]
   /\ fst (host_run pick 1000 [] fresh_host prog) = ORan ["one"].
 Proof. vm_compute. split; reflexivity. Qed.
+
+Lemma memo_counterexample :
+  table_immutable memo_tbl = false /\
+  (forall pick fuel s, permitted memo_tbl (memo_pipe pick fuel s)) /\
+  (forall pick fuel s, fst (gexec (fun _ => 0) (memo_pipe pick fuel s)) = run_alone pick fuel s) /\
+  let pick := fun _ _ => 0 in
+  let prog := "prc[a] : 1 = print one; close self" in
+  fst (ghost_runs (memo_pipe pick 1000) (fun _ => GRet tt) (fresh_host, fun _ => 0) [([], prog); ([], prog)])
+  = [ORan ["one"]; OReject]
+  /\ fst (host_run pick 1000 [] fresh_host prog) = ORan ["one"].
+Proof.
+  split; [exact memo_table_not_immutable|]. split; [exact memo_pipe_permitted|]. split; [exact memo_pipe_agrees|].
+  exact isolation_needs_immutable_globals.
+Qed.
